@@ -4,6 +4,8 @@ From TS Require Import Model.Str Model.Outcome Model.Unicode Model.Syntax Model.
 From TS Require Import Model.Lang.TypeScript Model.Lang.Kotlin Model.Lang.Swift Model.Lang.Scala Model.Lang.Go Model.Lang.Python.
 From TS Require Import Spec.Serde Spec.C04Spec Spec.C04Readers.
 From TS Require Proofs.FrontTypes Proofs.FrontAttrs Proofs.C04 Proofs.C04_Back Proofs.C04_Matrix Proofs.GoAcronyms.
+From TS Require Import Spec.C04PyHelpers.
+From TS Require Proofs.C04_PyHelpers Proofs.C10.
 Import ListNotations.
 Local Open Scope nat_scope.
 From TS Require Proofs.C12Multi Proofs.C12MultiTS Proofs.C12MultiSwift Proofs.C12MultiGo Proofs.MultiSameSites.
@@ -414,3 +416,16 @@ Goal forall uc cfg st pd ds st',
         good_C04 Go (Proofs.C04_Back.c04_expect_of C04Alias (atype a) false (go_show y)) (c04r_seen (go_c04_typed name [] C04Alias x)) = true) items dss.
 Proof. exact Props.C04.C04_multi_back_go_alias. Qed.
 Print Assumptions Props.C04.C04_multi_back_go_alias.
+Goal exists text, py_generate uc_exec Proofs.C10.w_py_cfg Proofs.C04_PyHelpers.ph_prog = Ok text /\
+    contains_sub (lit "    a: " ++ Proofs.C04_PyHelpers.ph_helpers) text = true /\
+    contains_sub (lit "    b: Optional[datetime] = Field(default=None)") text = true /\
+    c04_py_option_drops_helpers (lit "OffsetDateTime") 1 true (lit "datetime") Proofs.C04_PyHelpers.ph_helpers = true.
+Proof. exact Props.C04.C04_python_option_drops_helpers_refuted. Qed.
+Print Assumptions Props.C04.C04_python_option_drops_helpers_refuted.
+Goal c04_py_option_drops_helpers (lit "OffsetDateTime") 0 false (lit "datetime") Proofs.C04_PyHelpers.ph_helpers = false /\
+  c04_py_option_drops_helpers (lit "OffsetDateTime") 1 false (lit "datetime") Proofs.C04_PyHelpers.ph_helpers = false /\
+  c04_py_option_drops_helpers (lit "OffsetDateTime") 1 true (lit "str") Proofs.C04_PyHelpers.ph_helpers = false /\
+  c04_py_option_drops_helpers (lit "String") 1 true (lit "str") (lit "str") = false /\
+  c04_py_option_drops_helpers (lit "OffsetDateTime") 2 true (lit "Optional[datetime]") Proofs.C04_PyHelpers.ph_helpers = true.
+Proof. exact Props.C04.C04_python_option_drops_helpers_boundaries. Qed.
+Print Assumptions Props.C04.C04_python_option_drops_helpers_boundaries.
